@@ -80,6 +80,18 @@ type SpecDB struct {
 	Axioms    []*Clause
 	Lemmas    []*Clause
 	Files     []string
+	TypeInvs  []*TypeInv
+}
+
+// TypeInv: `typeinv <*pkg.T> <macro> init <fn>, <fn>...` - the one-argument macro is an invariant of every non-nil value
+// of the pointer type once the listed initialisers have run; the fields it reads are written only by those functions
+// (checked), so it is assumed for receivers, parameters and captured variables of that type in the C20 sweep.
+type TypeInv struct {
+	Type  string
+	Macro string
+	Init  []string
+	File  string
+	Line  int
 }
 
 func newSpecDB() *SpecDB {
@@ -140,7 +152,7 @@ func (db *SpecDB) loadFile(path string, assumed bool) error {
 	}
 	// join continuation lines: a line whose first word is not a keyword continues the previous one
 	kw := map[string]bool{"func": true, "requires": true, "ensures": true, "modifies": true, "havocs": true, "loop": true, "decreases": true,
-		"assert_at": true, "assert_after": true, "writes": true, "parelem": true, "crash_invariant": true, "flags": true, "ghost": true, "define": true, "ufunc": true, "axiom": true, "lemma": true, "opt": true}
+		"assert_at": true, "assert_after": true, "writes": true, "parelem": true, "crash_invariant": true, "flags": true, "ghost": true, "define": true, "ufunc": true, "axiom": true, "lemma": true, "opt": true, "typeinv": true}
 	var joined []rawLine
 	for _, l := range lines {
 		w := strings.Fields(l.text)
@@ -216,6 +228,22 @@ func (db *SpecDB) loadFile(path string, assumed bool) error {
 				}
 			}
 			db.UFuncs[u.Name] = u
+			cur = nil
+		case "typeinv":
+			parts := strings.SplitN(rest, " init ", 2)
+			hd := strings.Fields(parts[0])
+			if len(hd) != 2 {
+				return fail("typeinv <type> <macro> [init fn, fn]")
+			}
+			ti := &TypeInv{Type: hd[0], Macro: hd[1], File: path, Line: l.line}
+			if len(parts) == 2 {
+				for _, fn := range strings.Split(parts[1], ",") {
+					if fn = strings.TrimSpace(fn); fn != "" {
+						ti.Init = append(ti.Init, fn)
+					}
+				}
+			}
+			db.TypeInvs = append(db.TypeInvs, ti)
 			cur = nil
 		case "define":
 			// define name(p T, q T) = expr
